@@ -1012,6 +1012,14 @@ def decode_arguments(fv, n, depth=0):
             kind, val = slots[idx] if idx < len(slots) else ("?", ("none",))
             if kind == "display" and p is None and w is None and not flags and val[0] == "lit" and isinstance(val[1], str):
                 pieces.append(("lit", val[1]))        # `format!("{}/{}", dir, "kmers.counts")`: a literal argument is template text
+            elif kind == "display" and p is None and w is None and not flags and val[0] == "format" and len(val) == 3:
+                # `format!("{}{}", prefix, chunk)` with `prefix = format!("{}/part_{}_chunk_", dir, part)`: one template
+                for q in val[1]:
+                    if q[0] == "arg":
+                        pieces.append(("arg", len(args)) + tuple(q[2:]))
+                        args.append(val[2][q[1]])
+                    else:
+                        pieces.append(q)
             else:
                 pieces.append(("arg", len(args), kind, p, w, flags))
                 args.append(val)
